@@ -353,7 +353,63 @@ func (c *Ctx) RunTOK(which map[string]bool) {
 	}
 	if which["TOK-8"] {
 		c.S.Floor("TOK-8", "signal flip sites", res.flipSites, 4)
+		c.tok8Complete(blockSig, clearSig)
 	}
+}
+
+// tok8Complete: a state change is both halves. Whoever blocks one of the two
+// signals releases the other one as its next signal operation, on the same
+// path: with Online blocked and Offline never released nobody waiting on
+// either is ever woken.
+func (c *Ctx) tok8Complete(blockSig, clearSig *ssa.Function) {
+	if blockSig == nil || clearSig == nil {
+		return
+	}
+	n := 0
+	for _, fn := range c.analysed() {
+		calls := false
+		for _, g := range c.staticCallees(fn) {
+			if g == blockSig {
+				calls = true
+			}
+		}
+		if !calls {
+			continue
+		}
+		a := c.acc("TOK-8", fn, "blocked-signal⇒opposite-signal-released-next")
+		for _, p := range c.Paths("TOK-8", fn) {
+			for i := range p.Events {
+				e := &p.Events[i]
+				if !isCallTo(e, blockSig) || len(e.Args) != 1 {
+					continue
+				}
+				n++
+				sig := tokenOf(e.Args[0])
+				opp := tkOff
+				if sig == tkOff {
+					opp = tkOn
+				}
+				ok := false
+				for k := i + 1; k < len(p.Events); k++ {
+					x := &p.Events[k]
+					if isCallTo(x, blockSig) {
+						break
+					}
+					if isCallTo(x, clearSig) {
+						ok = len(x.Args) == 1 && tokenOf(x.Args[0]) == opp
+						break
+					}
+				}
+				if ok {
+					a.pass()
+				} else {
+					a.fail(p, i, "%s is blocked but %s is not released next on this path: the state change is left half done, and callers waiting for the new state never wake", sig, opp)
+				}
+			}
+		}
+		a.done(1, "every block of one signal is followed by the release of the other")
+	}
+	c.S.Floor("TOK-8", "signal blocks paired with a release", n, 4)
 }
 
 type tokEnv struct {
